@@ -56,10 +56,16 @@ theorem C26_all_kept_iff_disjoint (es : List Entry) (hp : ∀ e ∈ es, 0 < e.le
 
 theorem C26_sort_perm (es : List Entry) : (sortE es).Perm es := sortE_perm es
 
-/-- **C26 selection ranges.** A chain in which every parent contains its child becomes strictly growing
-once equal consecutive ranges are merged (what `ranges.dedup()` does in the handler). -/
-theorem C26_selection_strict_after_dedup (rs : List Range) (h : chainNested rs = true) :
-    chainStrict (dedupAdj rs) = true := chainStrict_dedupAdj rs h
+/-- **C26 selection ranges.** Whatever ranges the handler collects (token, markup items of a description,
+ancestors — nested or not, with repetitions), the chain it returns grows strictly outward: each parent contains
+its child and is larger. -/
+theorem C26_selection_strict (rs : List Range) : chainStrict (grow rs) = true := chainStrict_grow rs
+
+/-- … and a chain that already grows strictly is returned unchanged -/
+theorem C26_selection_keeps_strict_chain (rs : List Range) (h : chainStrict rs = true) : grow rs = rs := by
+  cases rs with
+  | nil => rfl
+  | cons a rest => simp only [grow]; rw [growFrom_id a rest h]
 
 /-- **C26 legend in range.** Every token type index `to_u32` can produce is inside the advertised legend
 and names the same type as `to_semantic_token_type`; every modifier bit is the bit of its legend slot
@@ -81,8 +87,11 @@ example : normalize [⟨1, 0, 4, 17, 0⟩, ⟨1, 4, 3, 21, 0⟩, ⟨1, 0, 4, 17,
 example : normalize [⟨2, 2, 4, 17, 0⟩, ⟨2, 0, 11, 17, 0⟩, ⟨0, 15, 0, 17, 0⟩] = [⟨2, 0, 2, 17, 0⟩, ⟨2, 2, 4, 17, 0⟩] := by decide
 example : ¬ Ordered (sortE [⟨2, 2, 4, 17, 0⟩, ⟨2, 0, 11, 17, 0⟩]) := by decide
 example : Ordered (sortE [⟨2, 4, 3, 1, 0⟩, ⟨0, 1, 2, 5, 1⟩, ⟨2, 0, 1, 7, 0⟩]) := by decide
--- a token whose parent node has the same range: nested but not strict; strict after dedup
+-- a token whose parent node has the same range: nested but not strict
 example : chainNested [⟨(0, 0), (0, 3)⟩, ⟨(0, 0), (0, 3)⟩, ⟨(0, 0), (1, 0)⟩] = true ∧
-    chainStrict [⟨(0, 0), (0, 3)⟩, ⟨(0, 0), (0, 3)⟩, ⟨(0, 0), (1, 0)⟩] = false := by decide
+    chainStrict [⟨(0, 0), (0, 3)⟩, ⟨(0, 0), (0, 3)⟩, ⟨(0, 0), (1, 0)⟩] = false ∧
+    grow [⟨(0, 0), (0, 3)⟩, ⟨(0, 0), (0, 3)⟩, ⟨(0, 0), (1, 0)⟩] = [⟨(0, 0), (0, 3)⟩, ⟨(0, 0), (1, 0)⟩] := by decide
+-- two overlapping markup items of a description (found on the tree): not child and parent
+example : grow [⟨(2, 24), (2, 27)⟩, ⟨(2, 16), (2, 26)⟩, ⟨(2, 2), (2, 33)⟩] = [⟨(2, 24), (2, 27)⟩, ⟨(2, 2), (2, 33)⟩] := by decide
 
 end LspShape
